@@ -87,7 +87,9 @@ func peerAddr(i int) *net.UDPAddr {
 	return &net.UDPAddr{IP: net.IPv4(10, 1, 0, byte(i)).To4(), Port: 5000}
 }
 
-func patternNames() []string { return []string{"idle", "both60", "both10", "burst", "newpeer", "sameip"} }
+func patternNames() []string {
+	return []string{"idle", "both60", "both10", "burst", "newpeer", "sameip", "newpeer-at-nonce-expiry"}
+}
 
 // makeTraffic builds the (deterministic) schedule of a pattern up to horizon.
 func makeTraffic(name string, horizon time.Duration) traffic {
@@ -135,6 +137,20 @@ func makeTraffic(name string, horizon time.Duration) traffic {
 		every(&tr.App, appPhase, time.Minute, 0)
 		every(&tr.Peer, peerPhase-20*time.Second, 10*time.Second, 0)
 		every(&tr.Peer, peerPhase-15*time.Second, 10*time.Second, 2)
+	case "newpeer-at-nonce-expiry":
+		// one write to peer 0 at the start; then, while the hourly nonce goes stale, a first write to a new peer
+		// every 20 s. Every new peer 2k+1 has a sibling 2k+2 on the same IP address (other port) that is never
+		// written to and sends every 10 s: it lives on the permission the first write installed.
+		tr.App = append(tr.App, tev{appPhase, 0})
+		every(&tr.Peer, peerPhase, time.Minute, 0)
+		tr.Peers = append(tr.Peers, peerAddr(0))
+		for j, t := 0, 59*time.Minute+appPhase; t <= 64*time.Minute && t <= horizon; j, t = j+1, t+20*time.Second {
+			ip := net.IPv4(10, 1, 1, byte(j+1)).To4()
+			tr.Peers = append(tr.Peers, &net.UDPAddr{IP: ip, Port: 5000}, &net.UDPAddr{IP: ip, Port: 5001})
+			tr.App = append(tr.App, tev{t, 2*j + 1})
+			every(&tr.Peer, t+peerPhase-appPhase, time.Minute, 2*j+1)
+			every(&tr.Peer, t+peerPhase-appPhase+5*time.Second, 10*time.Second, 2*j+2)
+		}
 	case "newpeer": // a single write to a peer never used before every 7 minutes
 		for j, t := 0, appPhase; t <= horizon; j, t = j+1, t+7*time.Minute {
 			p := j
@@ -151,6 +167,7 @@ func makeTraffic(name string, horizon time.Duration) traffic {
 	for p := range npeers {
 		tr.Peers = append(tr.Peers, peerAddr(p))
 	}
+	_ = npeers
 	sort.SliceStable(tr.App, func(i, j int) bool { return tr.App[i].At < tr.App[j].At })
 	sort.SliceStable(tr.Peer, func(i, j int) bool { return tr.Peer[i].At < tr.Peer[j].At })
 
